@@ -125,6 +125,22 @@ def check(ctx):
         else:
             why = f"branch {norm(br.test)} does not fill both out[~na] and out[na] before returning (stores: {pos})"
         ctx.ob("MPT-rank", rank, f"branch {norm(br.test)}", br, ok, why, clause="missing values ranked after all others")
+        # the rank given to missing values starts above every rank a non-missing element can have: it is built on the
+        # NUMBER of non-missing elements (or on the total length), never on a smaller quantity such as the number of
+        # distinct values
+        for (n, st), ptxt in zip(stores, pos):
+            if ptxt.startswith("~") or not isinstance(st, ast.Assign):
+                continue
+            NA_ = ptxt
+            kinds = [_count_kind(rank, t, st, NA_) for t in _terms(st.value)]
+            counts = [k for k in kinds if k in ("nonmissing", "total")]
+            unknown = [norm(t) for t, k in zip(_terms(st.value), kinds) if k is None]
+            okc = len(counts) >= 1 and not unknown
+            ctx.ob("MPT-rank", rank, f"{norm(st)}: base of the missing ranks", st, okc,
+                   f"missing ranks start from the {counts[0]} count" if okc else
+                   f"the rank given to missing values is built from {unknown or 'no count'}, not from the number of non-missing elements "
+                   f"(or the total length): with repeated values it is not above every real rank, so missing elements are ranked "
+                   f"among -- not after -- the others", clause="missing values ranked after all others")
     # ---------------------------------------------------------- ORD-unique
     us = [c for f, c in calls_in(uniq) if repo.dotted(f, c.func) == "numpy.unique"]
     ctx.count("np.unique sites in Vector.unique", len(us), 1)
@@ -164,3 +180,60 @@ def check(ctx):
                    clause="accept empty and entirely missing vectors")
     w = grd_width(ctx, [sort, rank, uniq], "accept empty and entirely missing vectors")
     ctx.count("fixed-width cast sites", w, 1)
+
+
+def _terms(e):
+    if isinstance(e, ast.BinOp) and isinstance(e.op, ast.Add):
+        return _terms(e.left) + _terms(e.right)
+    return [e]
+
+
+def _count_kind(fn, t, at, na_name):
+    """'nonmissing' / 'total' for an expression counting elements, 'offset' for constants and aranges, None otherwise."""
+    from ..forms import resolve
+    from ..dataflow import defs_reaching
+    from ..pattern import pmatch
+    t = resolve(fn, t, at)
+    S0 = fn.params[0]
+    if isinstance(t, ast.Constant) and isinstance(t.value, int):
+        return "offset"
+    if pmatch("np.arange(__)", t) is not None or pmatch("np.arange(__) + __", t) is not None:
+        return "offset"
+    for pat in (f"(~{na_name}).sum()", f"np.count_nonzero(~{na_name})", f"np.sum(~{na_name})", f"len({S0}) - {na_name}.sum()",
+                f"{S0}.length - {na_name}.sum()", f"len({S0}[~{na_name}])", f"{S0}[~{na_name}].size"):
+        if pmatch(pat, t) is not None:
+            return "nonmissing"
+    for pat in (f"len({S0})", f"{S0}.length", f"{S0}.size", f"len({na_name})", f"{na_name}.size"):
+        if pmatch(pat, t) is not None:
+            return "total"
+    b = pmatch("len(_X)", t) or pmatch("_X.size", t)
+    if b is not None and isinstance(b["_X"], ast.Name):
+        # X derived, length-preservingly, from self[~na]
+        seen = set()
+        cur = [b["_X"].id]
+        while cur:
+            nm = cur.pop()
+            if nm in seen:
+                continue
+            seen.add(nm)
+            for d in defs_reaching(fn, nm, at):
+                v = d.value
+                if v is None or not isinstance(d.target, ast.Name):
+                    return None
+                # strip length-preserving wrappers
+                while True:
+                    if isinstance(v, ast.Call) and isinstance(v.func, ast.Attribute) and v.func.attr in ("argsort", "copy", "astype", "view") :
+                        v = v.func.value
+                    elif isinstance(v, ast.Call) and isinstance(v.func, ast.Attribute) and isinstance(v.func.value, ast.Name) and v.func.value.id == "np" \
+                            and v.func.attr in ("zeros_like", "ones_like", "empty_like", "argsort", "asarray") and v.args:
+                        v = v.args[0]
+                    else:
+                        break
+                if pmatch(f"{S0}[~{na_name}]", v) is not None:
+                    continue
+                if isinstance(v, ast.Name):
+                    cur.append(v.id)
+                    continue
+                return None
+        return "nonmissing"
+    return None
